@@ -40,9 +40,13 @@ def _qt(g, name, shape, dtype, r, qmode=None):
     return g.net.add_t(name, shape, dtype, [], [])
 
 
-def fam_hostile(seed):
+N_KINDS = 19
+
+
+def fam_hostile(seed, kind=None):
     r = rng_for("hostile", seed)
-    kind = int(r.integers(0, 19))
+    k0 = int(r.integers(0, N_KINDS))
+    kind = k0 if kind is None else int(kind)
     g = G(r, "int8")
     sub = "?"
     if kind == 0:  # unary builtin on random rank / dtype
